@@ -1,10 +1,20 @@
-import AlgoVerif.Model.C06Run
+import AlgoVerif.Model.C06X
 /-!
 Line-protocol component for C06 (values are `Int`; keys are hex-encoded, `-` is the empty string).
+A case has two registers `a`, `b` holding tries of the implementation named by `comp=`; every operation
+applies to `a`.
 
     put <hex> <int> | get <hex> | delete <hex> | deletemin | deletemax | deleteall | size | min | max
     floor <hex> | ceiling <hex> | select <int> | rank <hex> | range <hex> <hex> | rangesize <hex> <hex>
     all | withprefix <hex> | longestprefixof <hex> | match <hex> | dump
+    isempty | height | traverse <order> <stop> | anymatch <pred> | allmatch <pred> | firstmatch <pred>
+    selectmatch <pred>     (b := a.SelectMatch; prints the dump of b)
+    partitionmatch <pred>  (m, b := a.PartitionMatch; prints the dumps of m and b)
+    equal (a.Equal(b)) | equalother (a.Equal(trie of the other implementation)) | swap
+
+    <order> = vlr | vrl | lvr | rvl | lrv | rlv | asc | desc | bad
+    <pred>  = true | false | vmod:<m>:<r> (val % m == r) | klt:<hex> (key < hex) | kpre:<hex> (key has the prefix)
+              | klen:<n> (len(key) == n)
 -/
 namespace AlgoVerif.C06.Driver
 open AlgoVerif AlgoVerif.C06
@@ -71,6 +81,40 @@ def parseOp (line : String) : Option (Op Int) :=
   | ["match", k] => do some (.match (← parseKey k))
   | _ => none
 
+def parseOrder : String → Option Order
+  | "vlr" => some .vlr | "vrl" => some .vrl | "lvr" => some .lvr | "rvl" => some .rvl
+  | "lrv" => some .lrv | "rlv" => some .rlv | "asc" => some .asc | "desc" => some .desc
+  | "bad" => some .bad
+  | _ => none
+
+def parsePred (s : String) : Option (Key → Int → Bool) :=
+  match s.splitOn ":" with
+  | ["true"] => some fun _ _ => true
+  | ["false"] => some fun _ _ => false
+  | ["vmod", m, r] => do
+    let m ← parseInt? m
+    let r ← parseInt? r
+    if m == 0 then none else some fun _ v => Int.tmod v m == r   -- Go's % truncates
+  | ["klt", h] => do let h ← parseKey h; some fun k _ => klt k h
+  | ["kpre", h] => do let h ← parseKey h; some fun k _ => h.isPrefixOf k
+  | ["klen", n] => do let n ← parseNat? n; some fun k _ => k.length == n
+  | _ => none
+
+def parseXOp (line : String) : Option (XOp Int) :=
+  match words line with
+  | ["isempty"] => some .isEmpty
+  | ["height"] => some .height
+  | ["traverse", o, k] => do some (.traverse (← parseOrder o) (← parseInt? k))
+  | ["anymatch", p] => do some (.anyMatch (← parsePred p))
+  | ["allmatch", p] => do some (.allMatch (← parsePred p))
+  | ["firstmatch", p] => do some (.firstMatch (← parsePred p))
+  | ["selectmatch", p] => do some (.selectMatch (← parsePred p))
+  | ["partitionmatch", p] => do some (.partitionMatch (← parsePred p))
+  | ["equal"] => some .equal
+  | ["equalother"] => some .equalOther
+  | ["swap"] => some .swap
+  | _ => (parseOp line).map .base
+
 /-! ### state dumps (same text as `trie.VerifDump`) -/
 
 def dumpBNode : BNode Int → String
@@ -116,28 +160,37 @@ def dumpPatricia (t : Patricia Int) : String :=
       | none => " [?]"
     s!"size={t.size} root=0" ++ String.join cells
 
-/-- run the ops of one case; after a `panic`/`diverge` the remaining ops print `skip`. -/
-def runWith {σ : Type} (step : σ → Op Int → Outcome (σ × Out Int)) (dump : σ → String) (init : σ)
+def showXOut {σ : Type} (dump : σ → String) : XOut Int σ → String
+  | .base o => showOut o
+  | .bool b => "ok " ++ showBool b
+  | .trie t => "ok " ++ dump t
+  | .tries t u => "ok " ++ dump t ++ " | " ++ dump u
+
+/-- run the ops of one case on the two registers; after a `panic`/`diverge` the remaining ops print `skip`. -/
+def runWith {σ : Type} (step : σ × σ → XOp Int → Outcome ((σ × σ) × XOut Int σ)) (dump : σ → String) (init : σ)
     (ops : List String) : List String := Id.run do
-  let mut s := init
+  let mut s := (init, init)
   let mut dead := false
   let mut out : Array String := #[]
   for line in ops do
     if dead then out := out.push "skip"; continue
-    if line.trimAscii.toString == "dump" then out := out.push ("ok " ++ dump s); continue
-    match parseOp line with
+    if line.trimAscii.toString == "dump" then out := out.push ("ok " ++ dump s.1); continue
+    match parseXOp line with
     | none => out := out.push "bad-op"
     | some op =>
       match step s op with
-      | .ok (s', o) => s := s'; out := out.push (showOut o)
+      | .ok (s', o) => s := s'; out := out.push (showXOut dump o)
       | .panic => dead := true; out := out.push "panic"
       | .diverge => dead := true; out := out.push "hang"
   return out.toList
 
+/-- `generic.NewEqualFunc[int]()`: `==` -/
+def eqInt (a b : Int) : Bool := a == b
+
 def runCase (hdr : List String) (ops : List String) : List String :=
   match headerGet hdr "comp" with
-  | some "binary" => runWith Binary.step dumpBinary (Binary.new : Binary Int) ops
-  | some "patricia" => runWith Patricia.step dumpPatricia (Patricia.new : Patricia Int) ops
+  | some "binary" => runWith (Binary.xstep eqInt) dumpBinary (Binary.new : Binary Int) ops
+  | some "patricia" => runWith (Patricia.xstep eqInt) dumpPatricia (Patricia.new : Patricia Int) ops
   | _ => ops.map fun _ => "bad-case"
 
 end AlgoVerif.C06.Driver
